@@ -66,3 +66,117 @@ def _c17(prop, tier):
 
 
 TABLE["C17"] = dict(run=_c17, replay=lambda p, path: smallfam.replay(p, path, driver="rtmr", trace_module="Rtmr_Trace", trace_consts=RTMR_TRACE_CONSTS))
+
+# ------------------------------------------------------------------------------------------
+# C20: a grid of (Timeout, Max) model-checking runs (time unit = UNIT ms); every exported case runs on the real getter.
+import json as _json  # noqa: E402
+import os as _os  # noqa: E402
+import time as _time  # noqa: E402
+from concurrent.futures import ThreadPoolExecutor as _TPE  # noqa: E402
+
+from . import common as C  # noqa: E402
+
+RETRY_SLACK_MS = 150
+
+
+def _retry_mc_cfg(timeout, mx, init2, liveness):
+    return ("CONSTANTS\n  Timeout = %d\n  Max = %d\n  Init2 = %d\n  DurMax = 1\n  FailsSet <- FailsAll\nSPECIFICATION FairSpec\n"
+            "INVARIANTS TypeOK FirstSuccessReturned NoAttemptAfterSuccess ErrorOnlyAfterDeadline WaitsBounded WaitsScheduled GiveUpBounded ExportCase\n"
+            "CONSTRAINT Bounded\n%sCHECK_DEADLOCK FALSE\n" % (timeout, mx, init2, "PROPERTY Terminates\n" if liveness else ""))
+
+
+def _c20(prop, tier):
+    t0 = _time.time()
+    wd = C.scratch("verif-C20-")
+    binary = C.build_harness()
+    # (unit ms, Timeout units, Max units, Init2 units, run on the real code)
+    grid = [(40, t, m, 50, True) for t in (0, 6, 18) for m in (0, 1, 3)]
+    grid += [(0, t, m, 2, False) for t in (3, 8) for m in (1, 2, 4, 16)]          # doubling-and-cap region, model only
+    if tier == "thorough":
+        grid += [(1000, 6, 5, 2, True), (1000, 3, 1, 2, True), (40, 30, 2, 50, True), (40, 12, 6, 50, True)]
+    states = gen = 0
+    cases = []
+
+    def mc(g):
+        unit, t, m, i2, real = g
+        r = C.run_tlc("Retry_MC", _retry_mc_cfg(t, m, i2, m > 0), workers=1, timeout=600, want_cases=True, heap="2g")
+        C.tlc_must_pass(r, "Retry model check Timeout=%d Max=%d Init2=%d" % (t, m, i2))
+        return g, r
+    with _TPE(max_workers=8) as ex:
+        for g, r in ex.map(mc, grid):
+            states += r.distinct
+            gen += r.generated
+            unit, t, m, i2, real = g
+            if real:
+                for c in r.cases:
+                    cases.append(dict(timeout=t * unit, max=m * unit, fails=c["fails"], init2=2000))
+    for i, c in enumerate(cases):
+        c["id"] = i + 1
+    cp = _os.path.join(wd, "cases.jsonl")
+    with open(cp, "w") as f:
+        for c in cases:
+            f.write(_json.dumps(c) + "\n")
+    C.log("[C20] model Retry: %d configurations, %d states generated, %d distinct; %d cases for the real getter" % (len(grid), gen, states, len(cases)))
+    trace = _os.path.join(wd, "trace.ndjson")
+    summ = C.run_harness(binary, "retry", cp, trace, _os.path.join(wd, "s.json"), tier)
+    C.log("[C20] harness retry: %d runs, %d events, %s" % (summ["runs"], summ["events"], summ["counts"]))
+    # split per (timeout, max): constants of the validating TLC run
+    groups = {}
+    cur = None
+    for line in open(trace):
+        if '"ev":"Call"' in line:
+            inp = _json.loads(line)["input"]
+            cur = (inp["timeout"], inp["max"])
+        groups.setdefault(cur, []).append(line)
+    violations = []
+
+    def consts(k):
+        return "  Timeout = %d\n  Max = %d\n  Init2 = 2000\n  DurMax = 1\n  FailsSet = {0}\n  Slack = %d\n" % (k[0], k[1], RETRY_SLACK_MS)
+
+    def val(k):
+        p = _os.path.join(wd, "g-%d-%d.ndjson" % k)
+        with open(p, "w") as f:
+            f.writelines(groups[k])
+        return k, p, smallfam.validate("Retry_Trace", "TSpec", p, consts(k), wd)
+    with _TPE(max_workers=8) as ex:
+        results = list(ex.map(val, sorted(groups)))
+    for k, p, vr in results:
+        cur_p, cur = p, vr
+        while not cur.ok and len(violations) < C.MAX_VIOLATIONS:
+            if not cur.postcondition_false:
+                raise C.Infra("trace validation failed on %s:\n%s" % (cur_p, cur.out[-3000:]))
+            idx = smallfam.unconsumed_index(cur)
+            evs, j, kk = smallfam.call_block(cur_p, idx)
+            call = evs[0]
+            key = "timeout=%d,max=%d,fails=%d" % (call["input"]["timeout"], call["input"]["max"], call["input"]["fails"])
+            rp = C.write_replay(prop, str(call["case"]), dict(property=prop, seed=C.seed(), tier=tier, case=call["input"], observed=evs, key=key))
+            # timing: reproduce twice; an alarm that does not reproduce is an infrastructure failure (exit 2)
+            if not smallfam.reproduce(prop, rp, binary, wd, "retry", "Retry_Trace", "TSpec", consts(k), tier):
+                raise C.Infra("rejected timing trace did not reproduce in isolation (scheduler noise?): %s" % rp)
+            violations.append(dict(key=key, replay=rp, text="rejected: %s" % _json.dumps(evs[min(idx - 1 - j, len(evs) - 1)])[:200]))
+            rest = open(cur_p).read().splitlines(keepends=True)[kk:]
+            if not rest:
+                break
+            cur_p = _os.path.join(wd, "rest-%d-%d-%d.ndjson" % (k[0], k[1], len(violations)))
+            with open(cur_p, "w") as f:
+                f.writelines(rest)
+            cur = smallfam.validate("Retry_Trace", "TSpec", cur_p, consts(k), wd)
+    code = C.settle(prop, violations)
+    cov = {"states": states, "transitions": gen, "traces_validated_against_impl": summ["runs"], "events_validated": summ["events"],
+           "model_configurations": ["unit=%sms Timeout=%d Max=%d Init2=%d real=%s" % g for g in grid],
+           "slack_ms": RETRY_SLACK_MS, "counts": summ["counts"], "samples": summ["samples"][:4], "exhaustive": True,
+           "rule": "TLC exhausts Retry (safety + termination under fairness) for every grid point; each (timeout, max, failure count) case runs on the real RetryHTTPSGetter with a scripted getter; TLC validates the recorded attempt times"}
+    C.write_evidence(prop, tier, "model_checking", cov, _time.time() - t0, len(violations),
+                     ["the host's monotonic clock; upper timing bounds carry %d ms slack, lower bounds are strict" % RETRY_SLACK_MS,
+                      "MaxRetryDelay = 0 is read as 'retry at once until the deadline' (DESIGN.md §6)"])
+    return code
+
+
+def _c20_replay(prop, path):
+    rp = _json.load(open(path))
+    k = (rp["case"]["timeout"], rp["case"]["max"])
+    consts = "  Timeout = %d\n  Max = %d\n  Init2 = 2000\n  DurMax = 1\n  FailsSet = {0}\n  Slack = %d\n" % (k[0], k[1], RETRY_SLACK_MS)
+    return smallfam.replay(prop, path, driver="retry", trace_module="Retry_Trace", trace_consts=consts)
+
+
+TABLE["C20"] = dict(run=_c20, replay=_c20_replay)
